@@ -162,3 +162,24 @@ MUTANTS["C20"] = [
     ("ms-integer-division", [(TU, "        duration = duration / 1000.0", "        duration = duration // 1000")]),
     ("strip-input", [(TU, "    new_text = input_text.replace('&','&amp;')", "    new_text = input_text.strip().replace('&','&amp;')")]),
 ]
+
+RT = "plotink/rtree.py"
+MUTANTS["C14"] = [
+    # NB: making only one quadrant test strict, moving the centre, or declaring leaves earlier are *equivalent*
+    # mutants (every box still lands in some quadrant); they were tried and, correctly, raise no alarm.
+    ("quadrants-all-strict", [(RT, "                if x_1 <= center_x and y_1 <= center_y\n", "                if x_1 < center_x and y_1 < center_y\n"),
+                              (RT, "                if x_2 >= center_x and y_1 <= center_y\n", "                if x_2 > center_x and y_1 < center_y\n"),
+                              (RT, "                if x_1 <= center_x and y_2 >= center_y\n", "                if x_1 < center_x and y_2 > center_y\n"),
+                              (RT, "                if x_2 >= center_x and y_2 >= center_y\n", "                if x_2 > center_x and y_2 > center_y\n")]),
+    ("quadrants-y-strict", [(RT, "                if x_1 <= center_x and y_1 <= center_y\n", "                if x_1 <= center_x and y_1 < center_y\n"),
+                            (RT, "                if x_2 >= center_x and y_1 <= center_y\n", "                if x_2 >= center_x and y_1 < center_y\n"),
+                            (RT, "                if x_1 <= center_x and y_2 >= center_y\n", "                if x_1 <= center_x and y_2 > center_y\n"),
+                            (RT, "                if x_2 >= center_x and y_2 >= center_y\n", "                if x_2 >= center_x and y_2 > center_y\n")]),
+    ("extent-xmin-from-xmax", [(RT, "            self.xmin = min(self.xmin, xmin)", "            self.xmin = min(self.xmin, xmax)")]),
+    ("ids-list-not-deduped", [(RT, "        ids, (x_1, y_1, x_2, y_2) = set(), bbox", "        ids, (x_1, y_1, x_2, y_2) = set(), tuple(sorted(bbox[:2])) + tuple(sorted(bbox[2:]))")]),
+    ("leaf-touching-dropped", [(RT, "            is_disjoint = x_1 > xmax or y_1 > ymax or x_2 < xmin or y_2 < ymin\n", "            is_disjoint = x_1 >= xmax or y_1 > ymax or x_2 < xmin or y_2 < ymin\n")]),
+    ("subtree-prune-ge", [(RT, "            is_disjoint = x_1 > subt.xmax or y_1 > subt.ymax or x_2 < subt.xmin or y_2 < subt.ymin", "            is_disjoint = x_1 > subt.xmax or y_1 >= subt.ymax or x_2 < subt.xmin or y_2 < subt.ymin")]),
+    ("leaf-never", [(RT, "        if max(map(len, sub_bboxes)) == len(bboxes):", "        if max(map(len, sub_bboxes)) > len(bboxes):")]),
+    ("extent-ymax-from-ymin", [(RT, "            self.ymax = max(self.ymax, ymax)", "            self.ymax = max(self.ymax, ymin)")]),
+    ("first-subtree-only", [(RT, "        for subt in self.subtrees:", "        for subt in self.subtrees[:3]:")]),
+]
